@@ -106,6 +106,7 @@ static InsClass gen_instrument(Rng &r, WOPNInstrument &in)
     k.namelen = g_namelen(r, 31);
     k.dirty_name = r.chance(0.25);
     g_name(r, in.inst_name, 32, k.namelen, k.dirty_name);
+    if(r.chance(0.04)) { for(int i = 0; i < 32; i++) in.inst_name[i] = (char)g_namechar(r); k.namelen = 32; k.dirty_name = false; }   // fills the field, no terminator: 31 characters are the capacity
     static const int offs[] = {0, 1, -1, 12, -12, 127, -128, 255, 256, -256, 32767, -32768, 0x7F00, -0x100};
     in.note_offset = r.chance(0.5) ? (int16_t)r.pick(offs) : (int16_t)r.next();
     k.vel = r.chance(0.04);
@@ -172,7 +173,7 @@ static WOPNFile *gen_value(Rng &r, unsigned m, unsigned p, ValueInfo &vi)
                 if(k.dirty_name && k.namelen < 31) vi.dirty_names = true;
                 if(k.vel || k.pseudo8) vi.unrepresentable_common = true;
                 cover(vfmt("gen-ins|blank%d|on0=%d|off0=%d", k.blank, k.on0, k.off0));
-                cover(vfmt("gen-insname|len%s|dirty%d", k.namelen == 0 ? "0" : k.namelen == 31 ? "31" : k.namelen == 30 ? "30" : "mid", k.dirty_name));
+                cover(vfmt("gen-insname|len%s|dirty%d", k.namelen == 0 ? "0" : k.namelen == 32 ? "32-unterminated" : k.namelen == 31 ? "31" : k.namelen == 30 ? "30" : "mid", k.dirty_name));
             }
         }
     }
@@ -204,7 +205,8 @@ struct Diff
 // fields of an instrument entry that every version and both file kinds store
 static void cmp_ins_core(const WOPNInstrument &a, const WOPNInstrument &b, const std::string &where, Diff &d)
 {
-    if(!cstr_eq(a.inst_name, b.inst_name, 31) || strnlen(b.inst_name, 32) > 31)
+    // capacity of the field is 31 characters: when `a` fills all 32 bytes its last byte is beyond what can be kept
+    if(!cstr_eq(a.inst_name, b.inst_name, strnlen(a.inst_name, 32) == 32 ? 31 : 32))
         d.set("inst_name", where + " name " + cstr_show(a.inst_name, 32) + " -> " + cstr_show(b.inst_name, 32));
     if(a.note_offset != b.note_offset) d.set("note_offset", where + vfmt(" note_offset %d -> %d", a.note_offset, b.note_offset));
     if(a.percussion_key_number != b.percussion_key_number) d.set("percussion_key_number", where + vfmt(" key %u -> %u", a.percussion_key_number, b.percussion_key_number));
@@ -255,7 +257,7 @@ static void cmp_roundtrip(const WOPNFile *x, const WOPNFile *y, int v, Diff &d)
             std::string wb = vfmt("%s bank %u", s ? "percussion" : "melodic", j);
             if(v >= 2)
             {
-                if(!cstr_eq(xb[j].bank_name, yb[j].bank_name, 32) || strnlen(yb[j].bank_name, 33) > 32)
+                if(!cstr_eq(xb[j].bank_name, yb[j].bank_name, 33))
                     d.set("bank_name", wb + " name " + cstr_show(xb[j].bank_name, 33) + " -> " + cstr_show(yb[j].bank_name, 33));
                 if(xb[j].bank_midi_lsb != yb[j].bank_midi_lsb) d.set("bank_midi_lsb", wb + vfmt(" lsb %u -> %u", xb[j].bank_midi_lsb, yb[j].bank_midi_lsb));
                 if(xb[j].bank_midi_msb != yb[j].bank_midi_msb) d.set("bank_midi_msb", wb + vfmt(" msb %u -> %u", xb[j].bank_midi_msb, yb[j].bank_midi_msb));
@@ -753,7 +755,7 @@ static void run_inst(Case &c)
             size_t size = 0; API("WOPN_CalculateInstFileSize", size = WOPN_CalculateInstFileSize(x.f, (uint16_t)v));
             Bytes img = save_inst_checked(c, x.f, (unsigned)v, tag);
             if(img.empty()) continue;
-            cover(vfmt("inst-values|v%d|size-vs-spec%+ld|namelen%s|dirty%d", v, (long)size - (long)spec_inst_size(v), k.namelen == 0 ? "0" : k.namelen == 31 ? "31" : "mid", k.dirty_name));
+            cover(vfmt("inst-values|v%d|size-vs-spec%+ld|namelen%s|dirty%d", v, (long)size - (long)spec_inst_size(v), k.namelen == 0 ? "0" : k.namelen == 32 ? "32-unterminated" : k.namelen == 31 ? "31" : "mid", k.dirty_name));
             HeapInst y;
             int rc = load_inst_exact(y.f, img.data(), img.size());
             if(rc != WOPN_ERR_OK) { viol(c, "oracle:C15:saved-image-rejected:inst:" + tag, vfmt("WOPN_LoadInstFromMem of the %zu bytes just saved returned %d", img.size(), rc)); continue; }
